@@ -36,7 +36,7 @@ enum Ty {
     MaybeI,
 }
 
-const DECLS: &str = "Cb0 :: blob {\n    a: int,\n    b: str,\n}\n\nCb1 :: blob {\n    flag: bool,\n    n: int,\n    xs: [int],\n}\n\nCb2 :: blob {\n    p: (int, str),\n    inner: Cb0,\n}\n\nCe :: enum\n    A int,\n    B,\n    C (int, str),\nend\n\n";
+const DECLS: &str = "Cb0 :: blob {\n    a: int,\n    b: str,\n}\n\nCb1 :: blob {\n    flag: bool,\n    n: int,\n    xs: [int],\n}\n\nCb2 :: blob {\n    p: (int, str),\n    inner: Cb0,\n}\n\nCe :: enum\n    A int,\n    B,\n    C (int, str),\nend\n\nzl19 :: [4, 5]\n\nzce19 :: Ce.B\n\nzcn19: Maybe(int) : Maybe.None\n\n";
 
 fn lit(v: &V) -> String {
     match v {
@@ -419,6 +419,29 @@ impl Check for C19 {
                 }
             }
         }
+        // values of one enum type that come from different producers are equal when they denote the same
+        // variant: a payload-less variant written in source, the same variant held in a variable, and the
+        // absent / present results of library functions
+        if n >= 2 {
+            let fixed: &[(&str, &str)] = &[
+                ("list.get(zl19, 9) == Maybe.None", "true"),
+                ("Maybe.None == list.get(zl19, 9)", "true"),
+                ("list.get(zl19, 9) != Maybe.None", "false"),
+                ("list.get(zl19, 0) == (Maybe.Just 4)", "true"),
+                ("(Maybe.Just 4) == list.get(zl19, 0)", "true"),
+                ("list.get(zl19, 0) == Maybe.None", "false"),
+                ("list.find(zl19, pu x -> x > 100 end) == Maybe.None", "true"),
+                ("zce19 == Ce.B", "true"),
+                ("Ce.B == zce19", "true"),
+                ("zce19 != Ce.B", "false"),
+                ("zce19 == (Ce.A 1)", "false"),
+                ("zcn19 == Maybe.None", "true"),
+                ("Maybe.None == zcn19", "true"),
+            ];
+            for (k, (e, want)) in fixed.iter().enumerate() {
+                lines.push(Line { expr: e.to_string(), expect: Some(want.to_string()), key: (0, k % n, "producers") });
+            }
+        }
         let chunks: Vec<&[Line]> = lines.chunks(20).collect();
         for (k, ch) in chunks.iter().enumerate() {
             src.push_str(&format!("\npart{} :: fn do\n", k));
@@ -594,7 +617,7 @@ impl Check for C19 {
         }
         Finish {
             level: "exploration",
-            rule: "a random type to nesting depth 1-3 (tuples of int/float/str/bool/tuples, numeric tuples, lists, three blobs incl. fields holding false / lists / nested blobs, an enum with and without payload, Maybe) gets a pool of 6 values (a value, an equal copy, a last-leaf neighbour, a prefix-equal list, random ones); the compiled program prints every pair under == != (and < <= > >= for numbers/strings/tuples, + - * / for numeric tuples and strings, tuple / number); each printed result is compared with the structural definition, then reflexivity, symmetry, complement, a<=b <=> a<b or a==b, a<b <=> b>a, trichotomy and transitivity are checked on the printed answers. Non-trivial: every judged program; distinct by source hash.".into(),
+            rule: "a random type to nesting depth 1-3 (tuples of int/float/str/bool/tuples, numeric tuples, lists, three blobs incl. fields holding false / lists / nested blobs, an enum with and without payload, Maybe) gets a pool of 6 values (a value, an equal copy, a last-leaf neighbour, a prefix-equal list, random ones); the compiled program prints every pair under == != (and < <= > >= for numbers/strings/tuples, + - * / for numeric tuples and strings, tuple / number), plus equalities between the same enum value from different producers (source literal, variable, library result); each printed result is compared with the structural definition, then reflexivity, symmetry, complement, a<=b <=> a<b or a==b, a<b <=> b>a, trichotomy and transitivity are checked on the printed answers. Non-trivial: every judged program; distinct by source hash.".into(),
             extra: J::obj().with("unobservable_clause", J::s("unary minus on tuples is rejected by this tree's typechecker (Constraint::Neg admits int/float only): counted as not exercisable, not a violation")),
             assumptions: vec!["luamon models Lua 5.3 metamethod dispatch".into(), "overflowing / non-finite results are not generated (skipped by the model)".into()],
             exhaustive: false,
